@@ -2,7 +2,7 @@ SPECIFICATION TSpec
 CONSTANTS
   ProtoSet = {0, 1, 2, 3, 4, 5, 9}
   MaxProto = 4
-INVARIANTS TNoBinaryWithoutTunnel TProtocolClamped TOnlyAdds TActOnlyNarrows
+INVARIANTS TNoBinaryWithoutTunnel TProtocolClamped TOnlyAdds TNewlineAsDirect TActOnlyNarrows
 CONSTRAINT HW
 POSTCONDITION Accepted
 CHECK_DEADLOCK FALSE
